@@ -28,7 +28,7 @@ pub struct Archetype {
 }
 
 impl Archetype {
-    fn assert_type_info(types: &[TypeInfo]) {
+    pub(crate) fn assert_type_info(types: &[TypeInfo]) {
         types.windows(2).for_each(|x| match x[0].cmp(&x[1]) {
             core::cmp::Ordering::Less => (),
             #[cfg(debug_assertions)]
